@@ -71,7 +71,15 @@ template <bool NoneIsLeaf>
                                                  const py::function& unflatten_func,
                                                  const py::object& path_entry_type,
                                                  const std::string& registry_namespace) {
-    if (sm_builtins_types.find(cls) != sm_builtins_types.end()) [[unlikely]] {
+    // NOTE: `sm_mutex` is only held around the accesses to the registry tables. The error messages,
+    // the type classification and the warnings below may call back into Python and must not run
+    // while the lock is held: another thread blocking on the lock would do so holding the GIL.
+    bool is_builtin_type = false;
+    {
+        const scoped_read_lock_guard lock{sm_mutex};
+        is_builtin_type = (sm_builtins_types.find(cls) != sm_builtins_types.end());
+    }
+    if (is_builtin_type) [[unlikely]] {
         throw py::value_error("PyTree type " + PyRepr(cls) +
                               " is a built-in type and cannot be re-registered.");
     }
@@ -84,7 +92,12 @@ template <bool NoneIsLeaf>
     registration->unflatten_func = py::reinterpret_borrow<py::function>(unflatten_func);
     registration->path_entry_type = py::reinterpret_borrow<py::object>(path_entry_type);
     if (registry_namespace.empty()) [[unlikely]] {
-        if (!registry->m_registrations.emplace(cls, std::move(registration)).second) [[unlikely]] {
+        bool inserted = false;
+        {
+            const scoped_write_lock_guard lock{sm_mutex};
+            inserted = registry->m_registrations.emplace(cls, std::move(registration)).second;
+        }
+        if (!inserted) [[unlikely]] {
             throw py::value_error("PyTree type " + PyRepr(cls) +
                                   " is already registered in the global namespace.");
         }
@@ -92,7 +105,10 @@ template <bool NoneIsLeaf>
         const auto warn = [&registry, &cls](const std::string& message) -> void {
             if (PyErr_WarnEx(PyExc_UserWarning, message.c_str(), /*stack_level=*/2) < 0)
                 [[unlikely]] {
-                registry->m_registrations.erase(cls);
+                {
+                    const scoped_write_lock_guard lock{sm_mutex};
+                    registry->m_registrations.erase(cls);
+                }
                 throw py::error_already_set();
             }
         };
@@ -108,9 +124,14 @@ template <bool NoneIsLeaf>
                  "Override it with custom flatten/unflatten functions.");
         }
     } else [[likely]] {
-        if (!registry->m_named_registrations
-                 .emplace(std::make_pair(registry_namespace, cls), std::move(registration))
-                 .second) [[unlikely]] {
+        bool inserted = false;
+        {
+            const scoped_write_lock_guard lock{sm_mutex};
+            inserted = registry->m_named_registrations
+                           .emplace(std::make_pair(registry_namespace, cls), std::move(registration))
+                           .second;
+        }
+        if (!inserted) [[unlikely]] {
             std::ostringstream oss{};
             oss << "PyTree type " << PyRepr(cls) << " is already registered in namespace "
                 << PyRepr(registry_namespace) << ".";
@@ -120,7 +141,10 @@ template <bool NoneIsLeaf>
         const auto warn = [&registry, &cls, &registry_namespace](const std::string& message) -> void {
             if (PyErr_WarnEx(PyExc_UserWarning, message.c_str(), /*stack_level=*/2) < 0)
                 [[unlikely]] {
-                registry->m_named_registrations.erase(std::make_pair(registry_namespace, cls));
+                {
+                    const scoped_write_lock_guard lock{sm_mutex};
+                    registry->m_named_registrations.erase(std::make_pair(registry_namespace, cls));
+                }
                 throw py::error_already_set();
             }
         };
@@ -149,8 +173,6 @@ template <bool NoneIsLeaf>
                                              const py::function& unflatten_func,
                                              const py::object& path_entry_type,
                                              const std::string& registry_namespace) {
-    const scoped_write_lock_guard lock{sm_mutex};
-
     RegisterImpl<NONE_IS_NODE>(cls,
                                flatten_func,
                                unflatten_func,
@@ -177,15 +199,29 @@ template <bool NoneIsLeaf>
 /*static*/ PyTreeTypeRegistry::RegistrationPtr PyTreeTypeRegistry::UnregisterImpl(
     const py::object& cls,
     const std::string& registry_namespace) {
-    if (sm_builtins_types.find(cls) != sm_builtins_types.end()) [[unlikely]] {
+    // NOTE: see `RegisterImpl()`: `sm_mutex` is only held around the accesses to the registry tables.
+    bool is_builtin_type = false;
+    {
+        const scoped_read_lock_guard lock{sm_mutex};
+        is_builtin_type = (sm_builtins_types.find(cls) != sm_builtins_types.end());
+    }
+    if (is_builtin_type) [[unlikely]] {
         throw py::value_error("PyTree type " + PyRepr(cls) +
                               " is a built-in type and cannot be unregistered.");
     }
 
     PyTreeTypeRegistry* const registry = Singleton<NoneIsLeaf>();
     if (registry_namespace.empty()) [[unlikely]] {
-        const auto it = registry->m_registrations.find(cls);
-        if (it == registry->m_registrations.end()) [[unlikely]] {
+        RegistrationPtr registration{nullptr};
+        {
+            const scoped_write_lock_guard lock{sm_mutex};
+            const auto it = registry->m_registrations.find(cls);
+            if (it != registry->m_registrations.end()) [[likely]] {
+                registration = it->second;
+                registry->m_registrations.erase(it);
+            }
+        }
+        if (registration == nullptr) [[unlikely]] {
             std::ostringstream oss{};
             oss << "PyTree type " << PyRepr(cls) << " ";
             if (IsStructSequenceClass(cls)) [[unlikely]] {
@@ -199,13 +235,19 @@ template <bool NoneIsLeaf>
             }
             throw py::value_error(oss.str());
         }
-        RegistrationPtr registration = it->second;
-        registry->m_registrations.erase(it);
         return registration;
     } else [[likely]] {
-        const auto named_it =
-            registry->m_named_registrations.find(std::make_pair(registry_namespace, cls));
-        if (named_it == registry->m_named_registrations.end()) [[unlikely]] {
+        RegistrationPtr registration{nullptr};
+        {
+            const scoped_write_lock_guard lock{sm_mutex};
+            const auto named_it =
+                registry->m_named_registrations.find(std::make_pair(registry_namespace, cls));
+            if (named_it != registry->m_named_registrations.end()) [[likely]] {
+                registration = named_it->second;
+                registry->m_named_registrations.erase(named_it);
+            }
+        }
+        if (registration == nullptr) [[unlikely]] {
             std::ostringstream oss{};
             oss << "PyTree type " << PyRepr(cls) << " ";
             if (IsStructSequenceClass(cls)) [[unlikely]] {
@@ -220,16 +262,12 @@ template <bool NoneIsLeaf>
             oss << "in namespace " << PyRepr(registry_namespace) << ".";
             throw py::value_error(oss.str());
         }
-        RegistrationPtr registration = named_it->second;
-        registry->m_named_registrations.erase(named_it);
         return registration;
     }
 }
 
 /*static*/ void PyTreeTypeRegistry::Unregister(const py::object& cls,
                                                const std::string& registry_namespace) {
-    const scoped_write_lock_guard lock{sm_mutex};
-
     const auto registration1 = UnregisterImpl<NONE_IS_NODE>(cls, registry_namespace);
     const auto registration2 = UnregisterImpl<NONE_IS_LEAF>(cls, registry_namespace);
     EXPECT_TRUE(registration1->type.is(registration2->type));
